@@ -98,14 +98,19 @@ package time
 //@   ensures [C18] err == nil ==> res == n4(in, 0)
 //@   pure
 
+//     C12: the zone cache is only touched under tzLock, which is taken and released inside getTimezone
+//@ guard tzMap by tzLock
+
 //@ func getTimezone
-//@   props C06
+//@   props C06, C12
 //@   requires tzInv()
+//@   requires [C12] !locked(tzLock)
+//@   ensures [C12] !locked(tzLock)
 //@   ensures [C18] res != nil && locoff(res) == offset && tzInv()
 //@   modifies map map[int]*time.Location, ghost lock.held
 
 //@ func parseTime
-//@   props C06
+//@   props C06, C12
 //@   let n := len(in), e := fend(in, 20)
 //@   ensures [C18] n == 10 && dateOK(in) ==> err == nil && tsec(res) == civil(n4(in,0), n2(in,5), n2(in,8), 0, 0, 0) && tnsec(res) == 0 && toff(res) == 0
 //@   ensures [C18] n >= 20 && dateOK(in) && clockOK(in) && zoneOK(in, 19) ==> err == nil && tnsec(res) == 0 && toff(res) == zoneOff(in, 19) \
@@ -113,6 +118,8 @@ package time
 //@   ensures [C18] n >= 22 && dateOK(in) && clockOK(in) && (in[19] == 46 || in[19] == 44) && isd(in, 20) && e < n && zoneOK(in, e) ==> err == nil && tnsec(res) == int64(frac9(in, 20, e)) && toff(res) == zoneOff(in, e) \
 //@        && tsec(res) == civil(n4(in,0), n2(in,5), n2(in,8), n2(in,11), n2(in,14), n2(in,17)) - int64(zoneOff(in, e))
 //@   requires tzInv()
+//@   requires [C12] !locked(tzLock)
+//@   ensures [C12] !locked(tzLock)
 //@   ensures [C18] tzInv()
 //@   modifies map map[int]*time.Location, ghost lock.held
 //@   uses umul_exactl(1, tzh*60*60 + tzm*60)
